@@ -1,5 +1,6 @@
 // C02 — block writes are validated as a whole and are all-or-nothing.
 #include "props/reg_glue.hpp"
+#include <set>
 using namespace rg;
 
 // a case = table + storage content + touched marks + one block write
@@ -47,6 +48,24 @@ static std::string run_case(const Case &c, std::string &msg) {
     m.mem = c.content; m.touched = c.touched;
     lv.copy_from(m);
     for (size_t i = 0; i < c.t.regs.size(); i++) { if (c.touched[i]) register_touch(&lv.t, (RegisterHandle)i); else register_untouch(&lv.t, (RegisterHandle)i); }
+    if (c.n > (1u << 20)) {
+        // far larger than any table: must be refused (first unmapped address, or a read-only area in front of it) without reading the caller's buffer
+        uint64_t a = c.addr;
+        bool ro = false; uint32_t ro_at = 0;
+        while (a < (1ull << 32) && m.mapped((uint32_t)a)) { const AreaD &ar = c.t.areas[(size_t)m.area_of((uint32_t)a)]; if (!ar.can_block_write() && !ro) { ro = true; ro_at = (uint32_t)a; } a = ar.end(); }
+        vp::Block small(64 * 2);
+        RegisterAccess r = register_block_write(&lv.t, c.addr, c.n, (RegisterAtom *)small.p);
+        vp::count();
+        if (r.code == REG_ACCESS_SUCCESS) { msg = vp::fmt("block write of %u words at %u accepted although address %llu is unmapped", c.n, c.addr, (unsigned long long)a); return "accepted:unmapped"; }
+        if (lv.diff(m) >= 0) { msg = "refused huge block write changed storage"; return "refused-but-storage-changed"; }
+        bool ok = (r.code == REG_ACCESS_NOENTRY && r.address == (uint32_t)a) || (r.code == REG_ACCESS_READONLY && ro && r.address == ro_at) || (r.code == REG_ACCESS_READONLY && !ro);
+        if (r.code == REG_ACCESS_READONLY && !ro) {
+            // a read-only area reached only after the hole (or after wrapping) is also "inside the request": accept its first address
+            ok = false; for (auto &ar : c.t.areas) if (!ar.can_block_write() && r.address == ar.base) ok = true;
+        }
+        if (!ok) { msg = vp::fmt("huge write: reported %s at %u; first unmapped address %llu%s", code_name(r.code), r.address, (unsigned long long)a, ro ? vp::fmt(", read-only from %u", ro_at).c_str() : ""); return "refused:wrong-address-huge"; }
+        return "";
+    }
     vp::Block buf((size_t)c.n * 2);
     if (c.n) memcpy(buf.p, c.words.data(), (size_t)c.n * 2);
     Expect e = predict(c.t, m, c.addr, c.n, c.words.data());
@@ -90,16 +109,28 @@ static void run() {
     vp::Rng rng(a.seed * 8191 + a.shard);
     FamilyOpts fo; fo.max_size = 8;
     FamilyOpts big; big.max_areas = 6; big.max_size = 20; big.max_regs = 12;   // thorough tier: every 8th table is a larger one
+    FamilyOpts wide; wide.huge = 2; wide.many = 2; wide.max_size = 8;             // every 60th table: an area beyond 2^16 words, or 32..70 registers
     for (size_t ti = 0; ti < ntables && !vp::too_many_failures(); ti++) {
-        TableD t = gen_table(rng, (a.thorough() && ti % 8 == 7) ? big : fo);
+        TableD t = gen_table(rng, (ti % 60 == 59) ? wide : (a.thorough() && ti % 8 == 7) ? big : fo);
         rm::Space m; m.init(t);
         for (size_t i = 0; i < t.areas.size(); i++) if (!t.areas[i].membacked) for (uint32_t k = 0; k < t.areas[i].size; k++) m.mem[i][k] = (uint16_t)(0xbeef + k);
         m.load_defaults();
         // registers of areas that do not load defaults may hold anything: give them a decodable content
         for (auto &r : t.regs) if (!m.sane(r) && r.ckind != rm::C_FAIL) m.store(r, rm::canon(r.type, r.def));
         uint32_t lo = t.areas.front().base >= 2 ? t.areas.front().base - 2 : 0, hi = t.areas.back().end() + 2;
-        for (uint32_t addr = lo; addr < hi; addr++)
-            for (uint32_t n = 0; addr + n <= hi; n++)
+        std::vector<std::pair<uint32_t, uint32_t>> windows;
+        if (hi - lo <= 120) { for (uint32_t addr = lo; addr < hi; addr++) for (uint32_t n = 0; addr + n <= hi; n++) windows.push_back({addr, n}); }
+        else {
+            // a table with an area beyond 2^16 words: windows around every area edge and every register, plus blocks longer than 2^16 words
+            std::set<std::pair<uint32_t, uint32_t>> ws;
+            auto around = [&](uint32_t center, uint32_t maxn) { for (long d = -2; d <= 2; d++) { long ad = (long)center + d; if (ad < (long)lo || ad >= (long)hi) continue; for (uint32_t n = 0; n <= maxn && (uint32_t)ad + n <= hi; n++) ws.insert({(uint32_t)ad, n}); } };
+            for (auto &ar : t.areas) { around(ar.base, 4); around(ar.end(), 4); }
+            for (auto &r : t.regs) { around(r.addr, 6); around(r.end(), 3); }
+            for (auto &ar : t.areas) { ws.insert({ar.base, ar.size}); if (ar.size > 1) ws.insert({ar.base + 1, ar.size - 1}); }
+            for (auto &ar : t.areas) if (ar.size > 0x10000u) for (uint32_t off : {0u, 1u, 3u}) for (uint32_t n : {0x10000u, 0x10001u, ar.size - off, ar.size - off - 1}) if (off + n <= ar.size + 2) ws.insert({ar.base + off, n});
+            windows.assign(ws.begin(), ws.end());
+        }
+        for (auto &wn : windows) { uint32_t addr = wn.first, n = wn.second;
                 for (int pat = 0; pat < 6; pat++) {
                     if (n == 0 && pat > 0) continue;
                     if ((hi - lo) > 24 && n > 10 && (n % 3) != 0 && pat > 1) continue;   // thin out long windows on wide tables
@@ -131,8 +162,19 @@ static void run() {
                     else vp::cls(e.range ? "write-refused-constraint" : e.invalid ? "write-refused-undecodable" : e.ro ? "write-refused-read-only" : "write-refused-unmapped");
                     bool spans = false; { int a0 = -2; for (uint32_t i = 0; i < n; i++) { int ar = m.area_of(addr + i); if (a0 != -2 && ar != a0) spans = true; a0 = ar; } }
                     if ((partial && special) || (spans && pat >= 1)) { vp::nontrivial(vp::fnv(ser_case(c))); vp::cls(partial && special ? "partial-overlap-with-adversarial-pattern" : "window-spans-areas-or-hole"); }
-                    if (vp::want_sample()) vp::sample(ser_case(c));
+                    if (vp::want_sample() && n < 64) vp::sample(ser_case(c));
                 }
+        }
+        // lengths near 2^31 / 2^32
+        for (auto &ar : t.areas) for (uint32_t off : {0u, 1u, 2u, 5u}) {
+            if (off >= ar.size + 2) continue;
+            for (uint32_t n : {0x7fffffffu, 0x80000000u, 0xfffffffbu, 0xfffffffdu, 0xfffffffeu, 0xffffffffu}) {
+                Case c; c.t = t; c.content = m.mem; c.touched = m.touched; c.addr = ar.base + off; c.n = n;
+                std::string msg, key = run_case(c, msg);
+                if (!key.empty()) vp::fail(key, msg, ser_case(c));
+                vp::nontrivial(vp::mix(vp::fnv(rm::ser(t)), ((uint64_t)c.addr << 32) | n)); vp::cls("write-length-near-2^32");
+            }
+        }
         if (rng.chance(1, 4)) for (size_t i = 0; i < m.touched.size(); i++) m.touched[i] = false;
     }
 }
@@ -148,7 +190,7 @@ static bool replay(const std::string &text) {
         else if (w[0] == "bw" && w.size() >= 3) { c.addr = (uint32_t)strtoul(w[1].c_str(), 0, 10); c.n = (uint32_t)strtoul(w[2].c_str(), 0, 10); for (size_t k = 3; k < w.size(); k++) c.words.push_back((uint16_t)strtoul(w[k].c_str(), 0, 10)); }
     }
     for (size_t i = 0; i < c.t.areas.size(); i++) c.content[i].resize(c.t.areas[i].size);
-    c.touched.resize(c.t.regs.size()); c.words.resize(c.n);
+    c.touched.resize(c.t.regs.size()); if (c.n <= (1u << 20)) c.words.resize(c.n);
     vp::CaseScope scope([] { return ser_case(g_cur); });
     std::string msg, key = run_case(c, msg);
     if (!key.empty()) printf("[replay] key=%s %s\n", key.c_str(), msg.c_str());
